@@ -1013,6 +1013,12 @@ class Attribute(utils.EventEmitter, Generic[_T]):
                     raise ATT_Error(
                         error_code=error.error_code, att_handle=self.handle
                     ) from error
+                except Exception as error:
+                    # The application's read function failed: the request still has
+                    # to be answered (the cause stays attached to the ATT error)
+                    raise ATT_Error(
+                        error_code=ATT_UNLIKELY_ERROR_ERROR, att_handle=self.handle
+                    ) from error
             case AttributeValueV2():
                 try:
                     read_value = self.value.read(bearer)
@@ -1023,6 +1029,10 @@ class Attribute(utils.EventEmitter, Generic[_T]):
                 except ATT_Error as error:
                     raise ATT_Error(
                         error_code=error.error_code, att_handle=self.handle
+                    ) from error
+                except Exception as error:
+                    raise ATT_Error(
+                        error_code=ATT_UNLIKELY_ERROR_ERROR, att_handle=self.handle
                     ) from error
             case _:
                 value = self.value
